@@ -52,6 +52,12 @@ SUM = {
  "C03r2-B": ("array volume cache coarsened from the previous cache instead of the native volume", "coarsening by 2 followed by coarsening by 3 (not nested) on one geometry object with array weights"),
  "C04r2-A": ("Newton: distance evaluated before the Anderson mixing step", "Newton, aa_depth > 0, at least two iterations"),
  "C04r2-B": ("Bregman stopping test uses the signed distance increment", "Bregman, distance decreasing in an iteration >= 2 while the other criteria are met"),
+ "C05r2-A": ("EMD._img_to_sig swaps the voxel sizes of the two axes", "cv2 back-end with anisotropic voxels and a non-diagonal move"),
+ "C05r2-B": ("FACE_BASED mobility: weight / |weight*flux| instead of weight**2 / |weight*flux|", "Bregman + FACE_BASED mobility + constant cell weight != 1 on a grid with freedom"),
+ "C12r2-A": ("AdaptiveBalance preconditions the sources with the scaling only (drops the accumulated translation)", "a stage after an affine stage with a real offset"),
+ "C12r2-B": ("AdaptiveBalance.reset re-initialises only the scaling", "use with an affine stage, reset, then non-affine stages"),
+ "C15r2-A": ("gauss() memoised with lru_cache and gauss_reference_cell normalises its weights in place", "unit-cell variant requested before the reference variant for one (dim, order)"),
+ "C15r2-B": ("one sign in the 3-D 27-point node table (node 19)", "dim 3, order 2 / 'max', integrands depending on the second coordinate"),
  "C06r2-A": ("FVDivergence caches the assembled matrix per grid SHAPE (class-level dict)", "a second operator for a grid of the same shape but other voxel sizes in the same process"),
  "C06r2-B": ("FVTangentialFaceReconstruction.__call__ flattens the stacked components in F order", "3-D grid and concatenate=True"),
  "C07r2-A": ("face numbering offset derived from the previous axis' max face index", "3-D shapes with a single-cell middle axis, e.g. (2,1,2)"),
@@ -77,6 +83,29 @@ SUM = {
  "C20r2-A": ("Image.slice indexes voxel_size (matrix order) with the Cartesian component index", "slice by Cartesian name on anisotropic voxels"),
  "C20r2-B": ("cartesianToMatrixIndexing rewritten as flipud(img.T)", "arrays with trailing colour / time axes"),
 }
+
+# what had to be added to the checks before the change was caught ("" = caught by the check as it stood)
+STRENGTHENED = {
+ "C04-A": "configurations with L / L_init different from 1", "C04-B": "independent RT0-quadrature oracle for the transport density; (1,2,2) grid",
+ "C05-A": "still only caught by C04 (stale factorisation = mass balance); C05 decides laws for every flux and cannot see which flux is returned",
+ "C05-B": "independent cost oracle on thin grids", "C10-B": "concrete non-float64 dtype configurations", "C11-A": "a raising stub counts as a false claim",
+ "C11-B": "refinement level +-3 in the quick tier", "C12-B": "2x2 swatch layout", "C14-A": "call history on one heterogeneous model object",
+ "C16-A": "array-valued multigrid coefficients", "C16-B": "claim about iterates after a restart boundary", "C17-B": "stack of a series with a single image",
+ "C01r2-B": "engine: assignment into integer arrays truncates (solver-guided case split) instead of ending the path as unsupported",
+ "C03r2-A": "normalise on series-of-vector images", "C03r2-B": "histories over coarsenings that are not nested (6 -> 3 -> 2)",
+ "C04r2-B": "concolic configurations: concrete masses through the real mobility / cost routines, symbolic tolerances (the abstract counterexamples did not replay)",
+ "C05r2-A": "plain-mode replay captures the signatures handed to cv2.EMD (the symbolic counterexample had nothing to replay against); single-cell moves through real OpenCV",
+ "C05r2-B": "lemmas about the real mobility routine (_compute_face_weight): linear in a constant cell weight, even in the flux",
+ "C06r2-A": "operators of an earlier grid of the same shape but other voxel sizes built first", "C06r2-B": "tangential operator called directly (list and concatenated form)",
+ "C08r2-A": "first solve of a fresh object with reuse_solver=True", "C08r2-B": "caller's right-hand-side array compared after the solve and reused for a second solve",
+ "C10r2-A": "the real IlluminationCorrection with a symbolic local scaling among the corrections", "C11r2-A": "one Resize object applied to a second image of another size",
+ "C12r2-A": "claim: every stage is fitted on the sources balanced by the earlier stages", "C13r2-A": "integer baselines with extra baselines",
+ "C13r2-B": "the stage classes the property names (MonochromaticReduction, ScalingModel, LinearModel) instead of uninterpreted stages; C14 caught it as it stood",
+ "C15r2-A": "call histories (other variant first; returned arrays scaled by the caller)", "C16r2-A": "one solver object used on arrays of different sizes",
+ "C16r2-B": "discretisation of a second Wasserstein solver object on a grid of equal shape and other spacing", "C17r2-A": "VoxelArray / CoordinateArray regions of interest partly outside the image",
+ "C17r2-B": "OpticalImage conversions on BGR / HSV data (uint8)", "C19r2-A": "runner: stop scheduling paths of a configuration after 6 paths with counterexamples (the change made the overlap width unbounded; the run took > 40 min)",
+ "C20r2-B": "layout helpers on arrays with trailing colour / time axes",
+}
 res = json.load(open(f"{V}/seeded/RESULTS.json")) if os.path.exists(f"{V}/seeded/RESULTS.json") else {}
 for name, (what, needs) in sorted(SUM.items()):
     d = f"{V}/seeded/{name}"
@@ -100,6 +129,15 @@ for name, (what, needs) in sorted(SUM.items()):
         checks_run=r.get("checks", {}),
         detected_by=[k for k, v in r.get("checks", {}).items() if v.get("detected")],
         applies_to_head=r.get("applies"),
+        check_strengthened_for_it=STRENGTHENED.get(name, ""),
     )
     json.dump(meta, open(f"{d}/meta.json", "w"), indent=1)
+# ---- the matrix as markdown (DESIGN.md section 11 is generated from this)
+rows = ["| seeded change | property | what it changes | needs to manifest | caught by | added to the check for it |", "|---|---|---|---|---|---|"]
+for name, (what, needs) in sorted(SUM.items()):
+    r = res.get(name, {})
+    det = ", ".join(k for k, v in r.get("checks", {}).items() if v.get("detected")) or "**missed**"
+    notdet = ", ".join(k for k, v in r.get("checks", {}).items() if not v.get("detected"))
+    rows.append(f"| {name} | {name[:3]} | {what} | {needs} | {det}{' (not: ' + notdet + ')' if notdet else ''} | {STRENGTHENED.get(name, '')} |")
+open(f"{V}/seeded/MATRIX.md", "w").write("\n".join(rows) + "\n")
 print("meta written for", len(SUM))
